@@ -2,6 +2,7 @@
 Plain (interpreted) definitions; the check compiles a clone of each with the real vp_compile and compares."""
 try:
     from ipv8.messaging.lazy_payload import VariablePayload
+    from ipv8.messaging.payload import Payload
     from ipv8.messaging.payload_headers import GlobalTimeDistributionPayload
 except ImportError:
     pass
@@ -13,6 +14,28 @@ class DefInt(VariablePayload):
 
     def __init__(self, a, b=3, **kwargs):
         super().__init__(a, b, **kwargs)
+
+
+class OldHeader(Payload):
+    """an old-style payload with a hand-written constructor, used as a base of a VariablePayload"""
+    format_list = ["I", "H"]
+
+    def __init__(self, a, b):
+        self.a = a
+        self.b = b
+
+    def to_pack_list(self):
+        return [("I", self.a), ("H", self.b)]
+
+    @classmethod
+    def from_unpack_list(cls, *args):
+        return cls(*args)
+
+
+class OldBaseBits(VariablePayload, OldHeader):
+    """two fields forwarded to the old-style base constructor, then a 'bits' group and a byte of its own"""
+    format_list = [*OldHeader.format_list, "bits", "B"]
+    names = ["a", "b", "f0", "f1", "f2", "f3", "f4", "f5", "f6", "f7", "c"]
 
 
 class DefIntOther(VariablePayload):
